@@ -101,7 +101,8 @@ def classify(kind: str, w: dict) -> str:
         if view == 'water_leaf_info' and w.get('len_got') == 0:
             return 'water-leaf-writer-rereads-view'
         if field == 'hammer_id' or (view in ('faces', 'hdr_faces', 'orig_faces') and path[-1] == 'hammer_id'):
-            if w['want'] is None and w['got'] == 0:
+            # the input's FACEIDS lump was empty: zeros were invented; otherwise existing ids were replaced
+            if w['want'] is None and w['got'] == 0 and not w.get('faceids_present', False):
                 return 'faceids-zero-filled'
             return 'faceids-clobbered-by-hdr'
         if view in ('nodes', 'visleafs') and len(path) >= 3 and path[2] in ('mins', 'maxes') and isinstance(w['want'], float) \
@@ -227,7 +228,9 @@ def run_case(run, inp: Input, seq: Sequence[str], tmp: str, engine: str, case: d
             viol(kind, f'{kind} difference after save: {w}', dict(w, owned=sorted(owned)))
         stage = 'reparse'
         canong = G.dump_bsp(g)
+        ids_present = any(f['hammer_id'] is not None for f in canon0['faces'] + canon0['hdr_faces'])
         for d in G.view_diffs(canon0, canong):
+            d['faceids_present'] = ids_present
             viol('content', f'parsed content differs at {d["path"]}: want {G.safe(d["want"])} got {G.safe(d["got"])}', d)
         # one more cycle from the file: read, touch the same views, save; nothing may move any more
         stage = 'cycle'
